@@ -1406,9 +1406,16 @@ package apd
 //@   ensures {C13,C14} [parses] d.Form == Finite && inlimitsB(val(d.Coeff), d.Exponent) ==> FinText(bytes(ret), d.Negative, val(d.Coeff), d.Exponent, 69)
 //@   ensures {C13,C14} [parses_special] d.Form != Finite && inv(d) ==> SpecText(bytes(ret), d.Form, d.Negative)
 
+// Float64 (C17, C13): floats are not modelled; what is proved is the plumbing - the result is exactly what strconv.ParseFloat
+// returns for the to-scientific-string of d at 64 bits, on every path (no shortcut that computes the float some other way).
 //@ func (*Decimal).Float64
-//@   trusted strconv.ParseFloat of the text form; the float result is never interpreted by the verifier
+//@   props C04 C17 C13
+//@   exported
+//@   requires d != nil
 //@   pure
+//@   allocates
+//@   assert before strconv.ParseFloat#1: [text] DecText(bytes(arg0), 0, d.Form, d.Negative, val(d.Coeff), d.Exponent, 71) && arg1 == 64
+//@   forwards strconv.ParseFloat#1
 
 //@ func (*Decimal).SetFloat64
 //@   props C17 C04 C06
